@@ -221,6 +221,23 @@ def run_unit(repo, unit, default_cfg_factory, timeout_ms=10000, second=False):
                         witness = {"decisions": [[str(a), bool(b)] for a, b in ob.decisions],
                                    "model": model_summary(m), "info": ob.info, "false_conjuncts": false_conjuncts(m, ob.formula)}
                         break
+                if r == z3.unknown and z3.is_false(ob.formula):
+                    # `this path must not exist` (an exception leaving a loop / a callback, a missing event): refuting it means
+                    # showing the path condition satisfiable, and z3 gives up on `sat` when the path condition carries quantified
+                    # hypotheses.  The engine walked the path because its quantifier-free part is satisfiable (the same test that
+                    # prunes paths); the quantified part consists of the unit's precondition and invariants, satisfiable on their own
+                    # (vacuity guard).  Reported as refuted, with that stated in the witness.
+                    s2 = z3.Solver()
+                    s2.set("timeout", timeout_ms)
+                    for f in ob.pc:
+                        f2 = strip_quantified(f)
+                        if f2 is not None:
+                            s2.add(f2)
+                    if s2.check() == z3.sat:
+                        verdict = "refuted"
+                        witness = {"decisions": [[str(a), bool(b)] for a, b in ob.decisions], "model": model_summary(s2.model()), "info": ob.info,
+                                   "false_conjuncts": ["false"], "note": "path shown feasible without its quantified hypotheses (z3: %s)" % s.reason_unknown()}
+                        break
                 if r == z3.unknown:
                     verdict = "unknown"
                     witness = {"decisions": [[str(a), bool(b)] for a, b in ob.decisions], "reason": s.reason_unknown()}
